@@ -195,6 +195,9 @@ class Transform(Copyable):
         else:
             outputs = []
             n_points = x.shape[0]
+            if n_points == 0:
+                # nothing to batch: np.vstack([]) would raise
+                return self._apply(x, **kwargs)
             for lo_ind in range(0, n_points, batch_size):
                 hi_ind = lo_ind + batch_size
                 outputs.append(self._apply(x[lo_ind:hi_ind], **kwargs))
